@@ -24,9 +24,12 @@ class LineCov:
     def __init__(self, funcs):
         self.codes = {}
         for func in funcs:
-            func = getattr(func, '__func__', func)
-            for code in _codes(func):
-                self.codes[code] = func.__qualname__
+            try:
+                func = getattr(func, '__func__', func)
+                for code in _codes(func):
+                    self.codes[code] = getattr(func, '__qualname__', '?')
+            except Exception:           # pylint: disable=broad-except
+                continue
         self.hit = {code: set() for code in self.codes}
         self._prev = None
 
@@ -94,37 +97,88 @@ UNREACHABLE = [
 ]
 
 
+def _get(obj, name, missing):
+    """getattr that never raises: a renamed or removed helper is recorded."""
+    val = getattr(obj, name, None)
+    if val is None:
+        missing.append(f'{getattr(obj, "__name__", obj)}.{name}')
+    return val
+
+
+MISSING = []        # names of helpers that the current /repo no longer has
+
+
 def anchored_functions():
-    from MIP.geom import forcad
-    from t4_geom_convert.Kernel import VectUtils
-    from t4_geom_convert.Kernel.FileHandlers.Parser import ParseMCNPSurface
-    from t4_geom_convert.Kernel.Surface import ConversionSurfaceMCNPToT4 as conv
-    from t4_geom_convert.Kernel.Surface.CollectionDict import CollectionDict
-    from t4_geom_convert.Kernel.Surface.SurfaceCollection import \
-        SurfaceCollection
-    funcs = list({id(f): f for f in forcad.mcnp2cad.values()}.values())
-    funcs += [forcad._sphere, forcad._plane, forcad._cylinder, forcad._cone,
-              forcad._torus, forcad._shift, forcad._norm, forcad._norm2,
-              forcad._normal]
-    funcs += [VectUtils.planeParamsFromPoints, VectUtils.scal, VectUtils.vect,
-              VectUtils.rescale, VectUtils.vdiff, VectUtils.renorm,
-              VectUtils.mag2, VectUtils.mag]
-    funcs += [ParseMCNPSurface.normalize_surface,
-              ParseMCNPSurface.to_surface_mcnp]
-    funcs += [conv.conversion_surface_params, conv.convert_plane,
-              conv.convert_cylinder, conv.convert_sphere,
-              conv.convert_special_quadric, conv.eval_quadric,
-              conv.convert_quadric, conv.convert_torus, conv.convert_cone,
-              conv.convert_mcnp_surface]
-    from MIP.geom import surfaces
-    from MIP.mip import surfacecard, datacard
-    from MIP.mip.main import Card
-    from t4_geom_convert.Kernel.Surface import ESurfaceTypeMCNP as enum_mod
-    funcs += [surfaces.get_surfaces, surfacecard.split, datacard.to_float,
-              Card.content, enum_mod.string_to_enum, enum_mod.mcnp_to_mip,
-              ParseMCNPSurface.to_surfaces_mcnp]
-    if hasattr(conv, 'sq_to_gq'):
-        funcs.append(conv.sq_to_gq)
-    funcs += [SurfaceCollection.join, SurfaceCollection.__init__,
-              CollectionDict.number_items]
-    return funcs
+    """The functions whose lines are counted. Information only: every lookup is
+    tolerant (private helpers may be renamed or removed by a refactoring), and
+    any failure yields an empty list."""
+    del MISSING[:]
+    try:
+        return _anchored_functions(MISSING)
+    except Exception as exc:            # pylint: disable=broad-except
+        MISSING.append(f'coverage set unavailable: {type(exc).__name__}: {exc}')
+        return []
+
+
+def _anchored_functions(missing):
+    import importlib
+
+    def mod(name):
+        try:
+            return importlib.import_module(name)
+        except Exception:               # pylint: disable=broad-except
+            missing.append(name)
+            return None
+    funcs = []
+    forcad = mod('MIP.geom.forcad')
+    if forcad is not None:
+        table = getattr(forcad, 'mcnp2cad', {}) or {}
+        funcs += list({id(f): f for f in table.values()}.values())
+        for name in ('_sphere', '_plane', '_cylinder', '_cone', '_torus',
+                     '_shift', '_norm', '_norm2', '_normal'):
+            funcs.append(_get(forcad, name, missing))
+    vect = mod('t4_geom_convert.Kernel.VectUtils')
+    if vect is not None:
+        for name in ('planeParamsFromPoints', 'scal', 'vect', 'rescale',
+                     'vdiff', 'renorm', 'mag2', 'mag'):
+            funcs.append(_get(vect, name, missing))
+    parse = mod('t4_geom_convert.Kernel.FileHandlers.Parser.ParseMCNPSurface')
+    if parse is not None:
+        for name in ('normalize_surface', 'to_surface_mcnp',
+                     'to_surfaces_mcnp'):
+            funcs.append(_get(parse, name, missing))
+    conv = mod('t4_geom_convert.Kernel.Surface.ConversionSurfaceMCNPToT4')
+    if conv is not None:
+        for name in ('conversion_surface_params', 'convert_plane',
+                     'convert_cylinder', 'convert_sphere',
+                     'convert_special_quadric', 'eval_quadric',
+                     'convert_quadric', 'convert_torus', 'convert_cone',
+                     'convert_mcnp_surface', 'sq_to_gq'):
+            funcs.append(_get(conv, name, missing))
+    coll = mod('t4_geom_convert.Kernel.Surface.SurfaceCollection')
+    if coll is not None:
+        cls = _get(coll, 'SurfaceCollection', missing)
+        if cls is not None:
+            funcs += [_get(cls, 'join', missing), _get(cls, '__init__', missing)]
+    cdict = mod('t4_geom_convert.Kernel.Surface.CollectionDict')
+    if cdict is not None:
+        cls = _get(cdict, 'CollectionDict', missing)
+        if cls is not None:
+            funcs.append(_get(cls, 'number_items', missing))
+    for modname, names in (
+            ('MIP.geom.surfaces', ('get_surfaces',)),
+            ('MIP.mip.surfacecard', ('split',)),
+            ('MIP.mip.datacard', ('to_float',)),
+            ('t4_geom_convert.Kernel.Surface.ESurfaceTypeMCNP',
+             ('string_to_enum', 'mcnp_to_mip'))):
+        module = mod(modname)
+        if module is not None:
+            for name in names:
+                funcs.append(_get(module, name, missing))
+    main = mod('MIP.mip.main')
+    if main is not None:
+        card = _get(main, 'Card', missing)
+        if card is not None:
+            funcs.append(_get(card, 'content', missing))
+    return [f for f in funcs if f is not None and
+            hasattr(getattr(f, '__func__', f), '__code__')]
